@@ -657,13 +657,20 @@ int KSI_Signature_signAggregationChain(KSI_CTX *ctx, int level, KSI_AggregationH
 		goto cleanup;
 	}
 
+	/* The chain is aggregated from the level of its input hash. */
+	res = KSI_SignatureBuilder_setAggregationChainStartLevel(builder, (KSI_uint64_t)level);
+	if (res != KSI_OK) {
+		KSI_pushError(ctx, res, NULL);
+		goto cleanup;
+	}
+
 	res = KSI_SignatureBuilder_appendAggregationChain(builder, chn);
 	if (res != KSI_OK) {
 		KSI_pushError(ctx, res, NULL);
 		goto cleanup;
 	}
 
-	res = KSI_SignatureBuilder_close(builder, 0, &tmp);
+	res = KSI_SignatureBuilder_close(builder, (KSI_uint64_t)level, &tmp);
 	if (res != KSI_OK) {
 		KSI_pushError(ctx, res, NULL);
 		goto cleanup;
